@@ -97,6 +97,29 @@ def cold {I K V : Type} (m : Memo I K V) : Op I K → Option V
   | .call i => some (m.compute i)
   | _ => none
 
+/-- ALIASING.  The value handed out by a hit is the stored object itself; a consumer that mutates it in place (a query derived
+    from a cached translator without `deepcopy()`) rewrites the entry behind the cache's back.  `AOp.mutate k v` is that event. -/
+inductive AOp (I K V : Type) where
+  | op (o : Op I K)
+  | mutate (k : K) (v : V)
+
+def tmut {K V : Type} [DecidableEq K] (k : K) (v : V) : Table K V → Table K V
+  | [] => []
+  | (k', w) :: rest => if k' = k then (k', v) :: tmut k v rest else (k', w) :: tmut k v rest
+
+def arun {I K V : Type} [DecidableEq K] (m : Memo I K V) : Table K V → List (AOp I K V) → List (Option V)
+  | _, [] => []
+  | t, .op o :: rest => let r := step m t o; r.2.1 :: arun m r.1 rest
+  | t, .mutate k v :: rest => none :: arun m (tmut k v t) rest
+
+def AOp.cold {I K V : Type} (m : Memo I K V) : AOp I K V → Option V
+  | .op o => Memo.cold m o
+  | .mutate _ _ => none
+
+def AOp.isMutate {I K V : Type} : AOp I K V → Bool
+  | .mutate _ _ => true
+  | .op _ => false
+
 /-- a plain memo: same key for lookup and store, no re-check, always stored -/
 def plain {I K V : Type} (key : I → K) (compute : I → V) : Memo I K V :=
   { key := key, skey := key, compute := compute, accept := fun _ _ => true, cacheable := fun _ => true, popOnReject := fun _ _ => false }
